@@ -55,12 +55,34 @@ pub fn run_c15(cx: &mut Cx) {
         if cx.ch.chance("restart_holder", 1, 4) { cx.restart(holder); }
         let opts = StepOpts { eintr: if cx.ch.chance("eintr", 1, 6) { 1 } else { 0 }, short_reads: if cx.ch.chance("short", 1, 6) { 1 } else { 0 }, ..Default::default() };
         let (k2, m2, h2) = (key.clone(), msgs.clone(), hidden.clone());
+        let sig_copy = sig.clone();
         cx.step(holder, "proof_gen", opts, move || holder_present(&k2, &sig, &m2, &h2), move |cx, st| {
             let proof_json = match st.out { Ok(j) => j, Err(c) => { cx.violation("C15", "proof_gen/failed".into(), format!("n={n} hidden={hidden:?}: {c:?}")); return; } };
             let revealed: Vec<Integer> = (0..n).filter(|i| !hidden.contains(i)).map(|i| msgs[i].clone()).collect();
             let p = Presentation { pk: key.pk.clone(), bases: key.bases.0[..n].to_vec(), cpk: key.cpk.clone(), proof_json, revealed, hidden: hidden.clone(), n };
             deliver(cx, verifier, p.clone(), "none".into(), true);
             tamper(cx, verifier, key.clone(), p.clone());
+            // Mallory: a presentation made from a signature nobody issued -- (v * a_i^k, m_i + k*e)
+            // derived from the honest signature without the secret key -- with the shifted
+            // (oversized or negative) attribute among the revealed ones
+            if let Some(&ri) = (0..n).filter(|i| !hidden.contains(i)).collect::<Vec<_>>().first() {
+                for k in [1i32, -1] {
+                    let nmod = &key.pk.N;
+                    let a = &key.bases.0[ri];
+                    let ak = if k > 0 { pow(a, &Integer::from(k), nmod) } else { pow(&Integer::from(a.invert_ref(nmod).unwrap()), &Integer::from(-k), nmod) };
+                    let forged_sig = (sig_copy.0.clone(), sig_copy.1.clone(), Integer::from(&sig_copy.2 * &ak) % nmod);
+                    let mut forged_msgs = msgs.clone();
+                    forged_msgs[ri] += Integer::from(&sig_copy.0 * k);
+                    let (k4, h4, fm4) = (key.clone(), hidden.clone(), forged_msgs.clone());
+                    let (key5, hidden5) = (key.clone(), hidden.clone());
+                    cx.step(holder, "proof_gen-from-forged-signature", StepOpts::default(), move || holder_present(&k4, &forged_sig, &fm4, &h4), move |cx, st| {
+                        let Ok(pj) = st.out else { cx.count("n.forged_presentation_not_producible"); return; };
+                        let revealed: Vec<Integer> = (0..n).filter(|i| !hidden5.contains(i)).map(|i| forged_msgs[i].clone()).collect();
+                        let q = Presentation { pk: key5.pk.clone(), bases: key5.bases.0[..n].to_vec(), cpk: key5.cpk.clone(), proof_json: pj, revealed, hidden: hidden5.clone(), n };
+                        deliver(cx, verifier, q, format!("forged_signature_shift_by_e:k={k}"), false);
+                    });
+                }
+            }
             // Mallory: sub-proofs of a second honest presentation of ANOTHER credential (other
             // attributes, same hidden set) spliced into this one
             if !hidden.is_empty() {
